@@ -104,6 +104,8 @@ Section StmtInd.
   Hypothesis Hwhile : forall e b1 b2, Forall P b1 -> Forall P b2 -> P (SWhile e b1 b2).
   Hypothesis Hfor : forall t e b1 b2, Forall P b1 -> Forall P b2 -> P (SFor t e b1 b2).
   Hypothesis Hwith : forall e v b, Forall P b -> P (SWith e v b).
+  Hypothesis Htry : forall b hs o f, Forall P b -> Forall (fun h : handler => Forall P (snd h)) hs ->
+                                     Forall P o -> Forall P f -> P (STry b hs o f).
   Fixpoint stmt_ind' (s : stmt) : P s :=
     let fix go (b : list stmt) : Forall P b :=
       match b with
@@ -123,6 +125,14 @@ Section StmtInd.
     | SWhile e b1 b2 => Hwhile e b1 b2 (go b1) (go b2)
     | SFor t e b1 b2 => Hfor t e b1 b2 (go b1) (go b2)
     | SWith e v b => Hwith e v b (go b)
+    | STry b hs o f =>
+        Htry b hs o f (go b)
+             ((fix goh (hs : list handler) : Forall (fun h : handler => Forall P (snd h)) hs :=
+                 match hs with
+                 | [] => Forall_nil _
+                 | (tv, hb) :: r => Forall_cons (P := fun h : handler => Forall P (snd h)) (tv, hb) (go hb) (goh r)
+                 end) hs)
+             (go o) (go f)
     end.
 End StmtInd.
 
@@ -221,6 +231,72 @@ Proof.
   rewrite E. reflexivity.
 Qed.
 
+Lemma anf_stmt_try : forall cfg b hs o f n,
+  anf_stmt cfg (STry b hs o f) n =
+  match anf_block cfg b n with
+  | None => None
+  | Some (b', n1) =>
+      match anf_handlers cfg hs n1 with
+      | None => None
+      | Some (hs', n2) =>
+          match anf_block cfg o n2 with
+          | None => None
+          | Some (o', n3) =>
+              match anf_block cfg f n3 with
+              | None => None
+              | Some (f', n4) => Some ([STry b' hs' o' f'], n4)
+              end
+          end
+      end
+  end.
+Proof.
+  intros. simpl.
+  inner_block cfg b n E.
+  rewrite E. destruct (anf_block cfg b n) as [[b' n1]|]; [|reflexivity].
+  match goal with |- match ?F hs n1 with _ => _ end = _ =>
+    assert (EH : forall hs n, F hs n = anf_handlers cfg hs n) end.
+  { clear - E. intro hh. induction hh as [|[[t v] hb] rest IH]; intros m; simpl; [reflexivity|].
+    destruct (anf_htype cfg t m) as [[t' m1]|]; [|reflexivity].
+    rewrite E. destruct (anf_block cfg hb m1) as [[hb' m2]|]; [|reflexivity].
+    rewrite IH. reflexivity. }
+  rewrite EH. destruct (anf_handlers cfg hs n1) as [[hs' n2]|]; [|reflexivity].
+  rewrite E. destruct (anf_block cfg o n2) as [[o' n3]|]; [|reflexivity].
+  rewrite E. reflexivity.
+Qed.
+
+(* an accepted try statement: nothing is put in front of it and every except clause keeps the type expression
+   it had (nothing is hoisted out of a position that is evaluated lazily) *)
+Lemma anf_htype_kept : forall cfg t n t' n', anf_htype cfg t n = Some (t', n') -> t' = t /\ n' = n.
+Proof.
+  intros cfg [e|] n t' n' E; simpl in E; [|inversion E; auto].
+  destruct (anf_expr cfg e n) as [[[e' [|p H]] m]|] eqn:Ee; try discriminate.
+  inversion E; subst. apply no_hoist_unchanged in Ee. destruct Ee; subst. auto.
+Qed.
+
+Lemma anf_handlers_types : forall cfg hs n hs' n',
+  anf_handlers cfg hs n = Some (hs', n') -> map htype hs' = map htype hs.
+Proof.
+  induction hs as [|[[t v] hb] rest IH]; intros n hs' n' E; simpl in E.
+  - inversion E. reflexivity.
+  - destruct (anf_htype cfg t n) as [[t' n1]|] eqn:Et; [|discriminate].
+    destruct (anf_block cfg hb n1) as [[hb' n2]|]; [|discriminate].
+    destruct (anf_handlers cfg rest n2) as [[rest' n3]|] eqn:Er; [|discriminate].
+    inversion E; subst. simpl. apply anf_htype_kept in Et. destruct Et; subst.
+    f_equal. eapply IH; eauto.
+Qed.
+
+Lemma try_except_types_kept : forall cfg b hs o f n ss n',
+  anf_stmt cfg (STry b hs o f) n = Some (ss, n') ->
+  exists b' hs' o' f', ss = [STry b' hs' o' f'] /\ map htype hs' = map htype hs.
+Proof.
+  intros cfg b hs o f n ss n' E. rewrite anf_stmt_try in E.
+  destruct (anf_block cfg b n) as [[b' n1]|]; [|discriminate].
+  destruct (anf_handlers cfg hs n1) as [[hs' n2]|] eqn:Eh; [|discriminate].
+  destruct (anf_block cfg o n2) as [[o' n3]|]; [|discriminate].
+  destruct (anf_block cfg f n3) as [[f' n4]|]; [|discriminate].
+  inversion E; subst. exists b', hs', o', f'. split; [reflexivity|]. eapply anf_handlers_types; eauto.
+Qed.
+
 Section RenameStmt.
   Variable r : string -> string.
   Variable lab : tag -> string -> string.
@@ -238,6 +314,12 @@ Section RenameStmt.
   Proof. intros. simpl. now rewrite !ren_blk_map. Qed.
   Lemma ren_stmt_with : forall e v b, rS (SWith e v b) = SWith (rE e) (option_map r v) (rB b).
   Proof. intros. simpl. now rewrite !ren_blk_map. Qed.
+
+  Lemma ren_stmt_try : forall b hs o f, rS (STry b hs o f) = STry (rB b) (ren_handlers r lab hs) (rB o) (rB f).
+  Proof.
+    intros. simpl. rewrite !ren_blk_map. f_equal.
+    induction hs as [|[[t v] hb] rest IH]; [reflexivity|]. rewrite IH. simpl. now rewrite ren_blk_map.
+  Qed.
 
   Lemma ren_block_app : forall a b, rB (a ++ b) = rB a ++ rB b.
   Proof. intros. unfold ren_block. apply map_app. Qed.
@@ -279,6 +361,25 @@ Section RenameStmt.
     rewrite Hs. destruct (anf_stmt cfg s n) as [[ss n1]|]; simpl; [|reflexivity].
     rewrite IH. destruct (anf_block cfg b n1) as [[b' n2]|]; simpl; [|reflexivity].
     now rewrite ren_block_app.
+  Qed.
+
+  Lemma anf_htype_ren : forall cfg t n,
+    anf_htype cfg (option_map rE t) n = option_map (fun x : option expr * nat => (option_map rE (fst x), snd x)) (anf_htype cfg t n).
+  Proof.
+    intros cfg [e|] n; simpl; [|reflexivity]. rewrite anf_expr_ren.
+    destruct (anf_expr cfg e n) as [[[e' [|p H]] m]|]; reflexivity.
+  Qed.
+
+  Definition ren_hres (x : list handler * nat) : list handler * nat := match x with (hs, n) => (ren_handlers r lab hs, n) end.
+
+  Lemma anf_handlers_ren_of : forall cfg hs,
+    Forall (fun h : handler => Forall (fun s => forall n, anf_stmt cfg (rS s) n = option_map (ren_sres r lab) (anf_stmt cfg s n)) (snd h)) hs ->
+    forall n, anf_handlers cfg (ren_handlers r lab hs) n = option_map ren_hres (anf_handlers cfg hs n).
+  Proof.
+    induction 1 as [|[[t v] hb] rest Hh Hr IH]; intros n; simpl; [reflexivity|].
+    rewrite anf_htype_ren. destruct (anf_htype cfg t n) as [[t' n1]|]; simpl; [|reflexivity].
+    simpl in Hh. rewrite (anf_block_ren_of cfg hb Hh). destruct (anf_block cfg hb n1) as [[hb' n2]|]; simpl; [|reflexivity].
+    rewrite IH. destruct (anf_handlers cfg rest n2) as [[rest' n3]|]; simpl; reflexivity.
   Qed.
 
   Theorem anf_stmt_ren : forall cfg s n,
@@ -339,6 +440,12 @@ Section RenameStmt.
       destruct (anf_named cfg KWith "items" e n) as [[[e' He] n1]|]; cbn [option_map ren_sres ren_eres ren_pend map]; [|reflexivity].
       rewrite (anf_block_ren_of cfg b H). destruct (anf_block cfg b n1) as [[b' n2]|]; cbn [option_map ren_sres ren_eres ren_pend map]; [|reflexivity].
       rewrite ren_block_app, flush_ren. change (rB [SWith e' v b']) with [rS (SWith e' v b')]. rewrite ren_stmt_with. reflexivity.
+    - (* STry *) rewrite ren_stmt_try, !anf_stmt_try.
+      rewrite (anf_block_ren_of cfg b H). destruct (anf_block cfg b n) as [[b' n1]|]; cbn [option_map ren_sres]; [|reflexivity].
+      rewrite (anf_handlers_ren_of cfg hs H0). destruct (anf_handlers cfg hs n1) as [[hs' n2]|]; cbn [option_map ren_hres]; [|reflexivity].
+      rewrite (anf_block_ren_of cfg o H1). destruct (anf_block cfg o n2) as [[o' n3]|]; cbn [option_map ren_sres]; [|reflexivity].
+      rewrite (anf_block_ren_of cfg f H2). destruct (anf_block cfg f n3) as [[f' n4]|]; cbn [option_map ren_sres]; [|reflexivity].
+      change (rB [STry b' hs' o' f']) with [rS (STry b' hs' o' f')]. rewrite ren_stmt_try. reflexivity.
   Qed.
 
   Lemma anf_block_ren : forall cfg b n,
